@@ -718,10 +718,13 @@ class MatchKeySignature(MatchParameter):
         if ksinfo is None:
             fmt = "v1.0.0"
             ksinfo = kstr.split("/")
-            fifths1, mode1 = key_name_to_fifths_mode(ksinfo[0].upper())
+            # only the step is case-insensitive: in "Bbm" the "b" is a flat
+            # and the "m" the minor mode
+            key_names = [k[:1].upper() + k[1:] for k in ksinfo]
+            fifths1, mode1 = key_name_to_fifths_mode(key_names[0])
             fifths2, mode2 = None, None
             if len(ksinfo) == 2:
-                fifths2, mode2 = key_name_to_fifths_mode(ksinfo[1].upper())
+                fifths2, mode2 = key_name_to_fifths_mode(key_names[1])
         else:
             fmt = "v0.3.0"
             step1, alter1, mode1, step2, alter2, mode2 = ksinfo.groups()
